@@ -239,6 +239,12 @@ class _Synonyms(ast.NodeTransformer):
         if isinstance(n.func, ast.Attribute) and n.func.attr in ("__getattribute__", "__getattr__") and len(n.args) == 1 and not n.keywords and isinstance(n.args[0], ast.Constant) \
                 and isinstance(n.args[0].value, str) and n.args[0].value.isidentifier():
             return ast.copy_location(ast.Attribute(value=n.func.value, attr=n.args[0].value, ctx=ast.Load()), n)
+        # np.take(a, idx, axis=0) -> a[idx] ; np.equal(a, b) -> a == b (likewise not_equal / less / greater ...)
+        if f == "np.take" and len(n.args) == 2 and [k.arg for k in n.keywords] == ["axis"] and U(n.keywords[0].value) == "0":
+            return ast.copy_location(ast.Subscript(value=n.args[0], slice=n.args[1], ctx=ast.Load()), n)
+        cmp_ops = {"np.equal": ast.Eq, "np.not_equal": ast.NotEq, "np.less": ast.Lt, "np.less_equal": ast.LtE, "np.greater": ast.Gt, "np.greater_equal": ast.GtE}
+        if f in cmp_ops and len(n.args) == 2 and not n.keywords:
+            return ast.copy_location(ast.Compare(left=n.args[0], ops=[cmp_ops[f]()], comparators=[n.args[1]]), n)
         if f == "vars" and len(n.args) == 1 and not n.keywords:
             return ast.copy_location(ast.Attribute(value=n.args[0], attr="__dict__", ctx=ast.Load()), n)
         if f in _BITWISE and len(n.args) == 2 and not n.keywords:
@@ -473,3 +479,41 @@ def renumber(fnode):
                 h.lineno = k[0]
                 visit(h.body)
     visit(fnode.body)
+
+
+def copyto_as_store(fnode):
+    """np.copyto(dst, v, where=W)  ->  dst[M] = v   when W is the row mask M itself or M broadcast over the trailing axes
+    (`M.reshape(M.shape + (1,) * k)`, `M[:, None]`, `M[..., np.newaxis]`): both write v into the rows selected by M.
+    Returns a transformed deep copy."""
+    from .astutil import single_defs, inline
+    fnode = copy.deepcopy(fnode)
+    env = single_defs(fnode)
+
+    def row_mask(w):
+        w = env.get(w.id, w) if isinstance(w, ast.Name) else w
+        if isinstance(w, ast.Call) and isinstance(w.func, ast.Attribute) and w.func.attr == "reshape" and len(w.args) == 1:
+            base = w.func.value
+            t = U(w.args[0]).replace(" ", "")
+            b = U(base).replace(" ", "")
+            if t.startswith(f"{b}.shape+(1,)*") or t.startswith(f"({b}.shape+(1,)*") or t in (f"{b}.shape+(1,)", "(-1,1)", f"({b}.shape[0],1)"):
+                return base
+            return None
+        if isinstance(w, ast.Subscript) and U(w.slice).replace(" ", "") in (":,None", ":,np.newaxis", "...,None", "...,np.newaxis", "(:,None)"):
+            return w.value
+        if isinstance(w, (ast.Name, ast.Compare)):
+            return w
+        return None
+
+    class T(ast.NodeTransformer):
+        def visit_Expr(self, n):
+            c = n.value
+            if isinstance(c, ast.Call) and U(c.func) == "np.copyto" and len(c.args) == 2:
+                kw = {k.arg: k.value for k in c.keywords}
+                if "where" in kw and set(kw) <= {"where", "casting"}:
+                    m = row_mask(kw["where"])
+                    if m is not None:
+                        return ast.copy_location(ast.Assign(targets=[ast.Subscript(value=c.args[0], slice=m, ctx=ast.Store())], value=c.args[1], lineno=n.lineno), n)
+            return n
+    fnode = T().visit(fnode)
+    ast.fix_missing_locations(fnode)
+    return fnode
